@@ -1,4 +1,4 @@
-//@unit name=pagerio props=C12,C01,C09
+//@unit name=pagerio props=C12,C01,C09,C02
 //@strip-pub
 // Unit `pagerio`: what the pager does with frames that leave the cache (C12: data survives any
 // amount of eviction) and what a checkpoint leaves behind (C01/C09: after Pager::flush the log file is
@@ -95,6 +95,7 @@ impl Pager {
         requires
             [C12:writeback.at_own_page_id] id == frame.id(),
             [C12:writeback.whole_page] size == old(self).psize,
+            [C02,C01:writeback.the_log_is_forced_before_an_evicted_page_reaches_the_file] old(self).wal.pending() == 0,
         ensures
             final(self).cache == old(self).cache && final(self).wal == old(self).wal && final(self).psize == old(self).psize && final(self).hdr_synced == old(self).hdr_synced,
             r is Ok ==> final(self).written@ == old(self).written@.insert(*frame),
@@ -104,7 +105,9 @@ impl Pager {
     // stands for the checkpoint loop over the drained frames
     #[verifier::external_body]
     pub fn write_dirty_pages(&mut self, pages: Vec<MemFrame>, size: usize) -> (r: io::Result<()>)
-        requires [C01,C09:checkpoint.whole_pages] size == old(self).psize,
+        requires
+            [C01,C09:checkpoint.whole_pages] size == old(self).psize,
+            [C02,C01:checkpoint.the_log_is_forced_before_the_pages_are_written] old(self).wal.pending() == 0,
         ensures
             final(self).cache == old(self).cache && final(self).wal == old(self).wal && final(self).psize == old(self).psize && final(self).hdr_synced == old(self).hdr_synced,
             r is Ok ==> (forall|f: MemFrame| pages@.contains(f) && f.dirty() ==> final(self).written@.contains(f)) && (forall|f: MemFrame| old(self).written@.contains(f) ==> final(self).written@.contains(f)),
